@@ -626,6 +626,10 @@ def generate(prop, seed, tier):
            'granularity': 'line' if (not thorough or sr.random() < 0.85) else 'call',
            'workers': [kn.choice([1, 1, 2, 16]), kn.choice([1, 1, 2, 16])],
            'rule_flip': None, 'stall': None, 'faults': []}
+    if rng.stream(seed, 'frac').random() < 0.2:
+        # float regime of the t-test: float64 (or float32) traces with non-integer values
+        scn['tdtype'] = rng.stream(seed, 'frac2').choice(['float64', 'float64', 'float32'])
+        scn['frac'] = rng.stream(seed, 'frac3').choice([30.0, 0.25, 1000.0])
     if nruns >= 2 and rng.stream(seed, 'rundtypes').random() < 0.35:
         # each run() may bring traces of another storage dtype (an acquisition continued with another scope setting)
         rd = rng.stream(seed, 'rundtypes2')
@@ -683,6 +687,10 @@ def make_sets(scn):
             s = raw[:n, :scn['m']] % (amp + 1)
             if td.kind != 'u':
                 s = s - amp // 2
+            if scn.get('frac') and td.kind == 'f':
+                # non-integer samples around an offset: not exactly representable in a narrower float (the Welch reference is exact rational
+                # arithmetic on the values as stored, with a forward rounding bound of the requested precision)
+                s = s / 7.0 + scn['frac']
             p.append(s.astype(td))
         out.append(p)
     return out
@@ -701,6 +709,8 @@ def sums_exact(scn):
     for a, b in make_sets(scn):
         for t, img in ((1, image(scn, a)), (2, image(scn, b))):
             x = np.abs(np.asarray(img, dtype='float64'))
+            if x.size and not np.array_equal(x, np.round(x)):
+                return False           # fractional samples: sums are rounded
             if x.size and x.max() * x.max() > (1 << 24) and np.asarray(img).dtype == np.float32:
                 return False           # the image itself was computed in float32 and may already be rounded
             q = float((x * x).sum(0).max()) if x.size else 0.0
@@ -1104,7 +1114,7 @@ def candidates(scn):
             c = copy.deepcopy(scn)
             del c['faults'][i]
             yield c
-    for key, val in (('chain', []), ('frame', None), ('rule_flip', None), ('stall', None), ('workers', [1, 1]), ('tdtypes', None), ('tdtype', 'uint8'), ('amp', 1)):
+    for key, val in (('chain', []), ('frame', None), ('rule_flip', None), ('stall', None), ('workers', [1, 1]), ('tdtypes', None), ('frac', None), ('tdtype', 'uint8'), ('amp', 1)):
         if scn.get(key) != val:
             if key == 'chain' and any(f['kind'] == 'callback_error' for f in scn['faults']):
                 continue
